@@ -33,7 +33,11 @@ def product_configs(tier):
             for k in (1, 5):
                 pairs.append("%s*%s" % (S[i], S[(i + k) % n]))
         triples = ["(SO2*SE3Quat)*R3", "SO2*(SE3Quat*R3)", "(SO3Mrp*SE2)*SE23Quat", "SO3Dcm*(SO3EulerB321*SE23Mrp)"]
-    return pairs + triples
+    # four and five factors, nested both ways (parameter / algebra offsets of later factors depend on every earlier one)
+    many = ["((SO2*R2)*SE2)*SO3Quat", "(SO2*SE2)*(R3*SO3Mrp)", "SO2*SE2*R3*SO3Quat*SE3Mrp"]
+    if tier == "thorough":
+        many += ["SO3Mrp*(SE2*(SO3Quat*(R2*SO2)))", "SE3Quat*SO3Dcm*SO2*SE23Mrp", "(R3*SO3EulerB321)*(SE2*SO3Quat)*R2"]
+    return pairs + triples + many
 
 
 def rep_tag(e):
